@@ -36,6 +36,8 @@ mod executor {
     }
 }
 
+mod async_event;
+mod aescen;
 mod seqops;
 mod slscen;
 mod tscen;
